@@ -164,18 +164,21 @@ theorem C09_eraseWills_spec (b : B) (r : Nat) :
     (eraseWills b).nextRef = b.nextRef ∧ (eraseWills b).ctr = b.ctr :=
   ⟨ew_getSess b r, rfl, rfl, rfl, rfl, rfl⟩
 
-/-- Every event other than the end of a connection by `stop` — CONNECT, PUBLISH,
+/-- Every event that does not run `stop` (`mayStop`: the end of a connection, and a
+CONNECT with a supplied client identifier, which ends an existing connection of
+that client first - MQTT-3.1.4-2 - and so publishes *its* will) — a first
+packet without client identifier or that is no CONNECT, PUBLISH,
 PUBREL, SUBSCRIBE, UNSUBSCRIBE, DISCONNECT, any other packet, the in-process
 API — produces exactly the same outputs in `b` and in `b` without its will
 messages, and the resulting states again differ at most in will messages: no
 such event sends anything that stems from a stored will. -/
-theorem C09_only_stop_reads_will (b : B) (e : Ev) (h : ∀ c, e ≠ .close c) :
+theorem C09_only_stop_reads_will (b : B) (e : Ev) (h : mayStop e = false) :
     (step (eraseWills b) e).2 = (step b e).2 ∧
     eraseWills (step (eraseWills b) e).1 = eraseWills (step b e).1 :=
   step_ew b e h
 
 /-- the same for any sequence of such events -/
-theorem C09_only_stop_reads_will_run (b : B) (evs : List Ev) (h : ∀ e ∈ evs, ∀ c, e ≠ .close c) :
+theorem C09_only_stop_reads_will_run (b : B) (evs : List Ev) (h : ∀ e ∈ evs, mayStop e = false) :
     (run (eraseWills b) evs).2 = (run b evs).2 :=
   (run_ew evs h b (eraseWills b) (eraseWills_idem b)).1
 
@@ -187,13 +190,13 @@ theorem C09_stop_reads_will_only_with_flag (b : B) (c : Nat) (cn : Conn) (s : Se
   stop_ew_noflag b c cn s hc ha hs hf
 
 /-- non-vacuity: with listeners on the will topic "w", a run of publishes,
-(un)subscribes, a resuming CONNECT of the same client and a DISCONNECT gives the
+(un)subscribes, an anonymous CONNECT and a DISCONNECT gives the
 same outputs with and without the stored wills, while a `close` of connection 1
 does not (so the exclusion is needed). -/
 example :
     let evs : List Ev := [.packet 2 (.publish { qos := 1, topic := Ex.tW, pktid := 9, payload := [3] }),
       .srvPub { qos := 0, topic := Ex.tW, payload := [4] }, .packet 1 (.unsubscribe 5 [Ex.tW]),
-      .first 4 (.connect (Ex.conn Ex.idA false)) true, .packet 1 .disconnect, .packet 4 .pingreq]
+      .first 4 (.connect (Ex.conn [] true)) true, .packet 1 .disconnect, .packet 4 .pingreq]
     (run (eraseWills Ex.base2) evs).2 = (run Ex.base2 evs).2 ∧
     (run Ex.base2 evs).2.length = 6 ∧ (run Ex.base2 evs).2.head? = some
       [.send 2 (.puback 9), .send 1 (.publish { qos := 1, topic := Ex.tW, pktid := 9, payload := [3] }),
@@ -211,29 +214,40 @@ theorem C09_will_kept_step (b : B) (hi : Inv b) (e : Ev) (r : Nat) (s : Sess)
     ∃ s', (step b e).1.getSess r = some s' ∧ s'.will = s.will ∧ s'.willFlag = s.willFlag :=
   step_will_kept hi e r s hs h
 
-/-- what `affectsWill` and `endsConn` say -/
+/-- what `affectsWill` and `endsConn` say: the will of session object `r` can change at the
+end of a connection bound to it - DISCONNECT, any other end, or a CONNECT that takes that
+connection over (`takenOver`: the live connections of the client whose identifier an acceptable
+CONNECT supplies, MQTT-3.1.4-2) - and at a CONNECT that resumes `r`; connection `c` ends, or its
+number is reused, at `close`, DISCONNECT, a first packet on `c`, or a CONNECT that takes it over -/
 theorem C09_affectsWill_iff (b : B) (r : Nat) (e : Ev) :
     (affectsWill b r e ↔
       (∃ c, (e = .close c ∨ e = .packet c .disconnect) ∧ (b.getConn c).map (·.sess) = some r) ∨
-      (∃ c req a, e = .first c (.connect req) a ∧ accepts (.connect req) a = true ∧
-        (resumed b c req).map (·.ref) = some r)) ∧
-    (∀ c, endsConn c e ↔ e = .close c ∨ e = .packet c .disconnect ∨ ∃ f a, e = .first c f a) := by
+      (∃ c f a, e = .first c f a ∧
+        ((∃ c' ∈ takenOver b f a, (b.getConn c').map (·.sess) = some r) ∨
+         ∃ req, f = .connect req ∧ accepts (.connect req) a = true ∧
+           (resumed (takeOver b f a).1 c req).map (·.ref) = some r))) ∧
+    (∀ c, endsConn b c e ↔ e = .close c ∨ e = .packet c .disconnect ∨
+      ∃ c' f a, e = .first c' f a ∧ (c' = c ∨ c ∈ takenOver b f a)) := by
   constructor
   · cases e with
     | close c => simp [affectsWill, sessRefOf]
     | packet c p => cases p <;> simp [affectsWill, sessRefOf]
     | first c f a =>
-      cases f with
-      | connect req =>
-        simp only [affectsWill]
-        constructor
-        · intro h; exact .inr ⟨c, req, a, rfl, h.1, h.2⟩
-        · rintro (⟨c', (h | h), _⟩ | ⟨c', req', a', h, h1, h2⟩)
-          · cases h
-          · cases h
-          · cases h; exact ⟨h1, h2⟩
-      | other t => simp [affectsWill]
-      | garbage => simp [affectsWill]
+      simp only [affectsWill, sessRefOf]
+      constructor
+      · rintro (h | h)
+        · exact .inr ⟨c, f, a, rfl, .inl h⟩
+        · cases f with
+          | connect req => exact .inr ⟨c, .connect req, a, rfl, .inr ⟨req, rfl, h.1, h.2⟩⟩
+          | other t => exact absurd h (by simp [resumesRef])
+          | garbage => exact absurd h (by simp [resumesRef])
+      · rintro (⟨c', (h | h), _⟩ | ⟨c', f', a', h, h1⟩)
+        · cases h
+        · cases h
+        · cases h
+          rcases h1 with h1 | ⟨req, rfl, h2, h3⟩
+          · exact .inl h1
+          · exact .inr ⟨h2, h3⟩
     | srvPub p => simp [affectsWill]
     | srvSub cb f q => simp [affectsWill]
     | srvUnsub cb f => simp [affectsWill]
@@ -241,7 +255,14 @@ theorem C09_affectsWill_iff (b : B) (r : Nat) (e : Ev) :
     cases e with
     | close c' => simp [endsConn, eq_comm]
     | packet c' p => cases p <;> simp [endsConn, eq_comm]
-    | first c' f a => simp [endsConn, eq_comm]
+    | first c' f a =>
+      simp only [endsConn]
+      constructor
+      · intro h; exact .inr (.inr ⟨c', f, a, rfl, h⟩)
+      · rintro (h | h | ⟨c'', f', a', h, h1⟩)
+        · cases h
+        · cases h
+        · cases h; exact h1
     | srvPub p => simp [endsConn]
     | srvSub cb f q => simp [endsConn]
     | srvUnsub cb f => simp [endsConn]
@@ -249,9 +270,9 @@ theorem C09_affectsWill_iff (b : B) (r : Nat) (e : Ev) :
 /-- The property over histories.  Connection `c` is accepted with a CONNECT
 carrying the will `w` (fresh or resumed session); then any events happen —
 traffic of `c` and of every other client, the in-process API, other connections
-coming and going — none of which ends `c`, reuses its number, or belongs to a
-connection sharing `c`'s session object (`quiet`; two live connections under one
-client identifier are outside the property).  When `c` then ends without
+coming and going — none of which ends `c` (a CONNECT with `c`'s client identifier does: it
+takes `c` over, MQTT-3.1.4-2), reuses its number, or resumes `c`'s session object
+(`quiet`).  When `c` then ends without
 DISCONNECT, the output is the close followed by exactly the publish-path
 outputs for `w` as given in `c`'s own CONNECT. -/
 theorem C09_will_of_own_connect (b0 : B) (hi : Inv b0) (c : Nat) (req : Connect) (authOk : Bool) (w : Will)
@@ -293,7 +314,7 @@ example :
     (stop (run (first b0 3 (.connect req) true).1 evs).1 3).2 =
       [.closed 3, .send 4 (.publish { qos := 1, topic := [120], pktid := 3, payload := [5] })] := by
   refine ⟨by rfl, ?_, by decide⟩
-  simp only [quiet, affectsWill, endsConn, sessRefOf, not_false_eq_true, true_and, and_true]
+  simp only [quiet, and_true]
   decide
 
 /-! ### the refinement theorem, specialised: the will after any history -/
@@ -333,5 +354,45 @@ theorem C09_refines_reference (es : List Ev) (hok : okRun {} es = true) (c : Nat
   obtain ⟨a1, a2⟩ := e8 w hw
   refine ⟨a1, ?_⟩
   rw [r3]; exact a2
+
+open Mqtt.Proofs.BrokerRefine (okRun specRun okEv liveSess) in
+/-- **The will of a connection that is taken over** (MQTT-3.1.4-2).  After any
+history admitted by `okRun`, an accepted CONNECT admitted by `okEv` that carries
+the (non-empty) client identifier of the live connection `c0` emits exactly what
+the end of `c0` without DISCONNECT emits (`.close c0`), followed by its own
+CONNACK - in the model and in the reference broker alike.  So everything
+C09_refines_reference says about `.close c0` holds for the take-over: the close
+of `c0`, then the will of `c0`'s own CONNECT (if it declared one) fanned out in
+the state in which `c0`'s subscriptions are gone and the new connection is not
+there yet, then the CONNACK. -/
+theorem C09_take_over_is_an_end (es : List Ev) (hok : okRun {} es = true) (c c0 : Nat) (req : Connect) (a : Bool)
+    (he : okEv (run {} es).1 (.first c (.connect req) a) = true) (hacc : accepts (.connect req) a = true)
+    (σ : Sess) (hσ : liveSess (run {} es).1 c0 = some σ) (hcid : σ.cid = req.clientId) (hne : req.clientId ≠ []) :
+    (run {} es).1.alive c0 = true ∧
+    ∃ sp, (step (run {} es).1 (.first c (.connect req) a)).2 =
+        (step (run {} es).1 (.close c0)).2 ++ [.send c (.connack sp 0)] ∧
+      (Mqtt.Spec.Broker.step (specRun {} es).1 (.first c (.connect req) a)).2 =
+        (Mqtt.Spec.Broker.step (specRun {} es).1 (.close c0)).2 ++ [.send c (.connack sp 0)] := by
+  have hR := Mqtt.Proofs.BrokerRefine.reach es hok
+  refine ⟨Mqtt.Proofs.BrokerRefine.liveSess_alive hσ, ?_⟩
+  obtain ⟨_, c1, c2, _⟩ := Mqtt.Proofs.BrokerRefine.connect_refines hR c req a he hacc
+  have hdead : (run {} es).1.alive c = false := by
+    simp only [okEv, Bool.and_eq_true, decide_eq_true_eq, Bool.not_eq_true'] at he
+    exact he.1.2
+  obtain ⟨_, _, hfree, hto⟩ := Mqtt.Proofs.BrokerRefine.takeOver_refines hR c req a hacc hdead
+  have heff : effCid c req = req.clientId := by
+    unfold effCid
+    cases hc : req.clientId with
+    | nil => exact absurd hc hne
+    | cons x xs => rfl
+  rcases hto with ⟨h0, _⟩ | ⟨c0', σ', fs, fo, hσ', hcid', _, t1, t2, _⟩
+  · rw [h0] at hfree
+    exact absurd (hcid.trans heff.symm) (hfree c0 σ hσ)
+  · have : c0' = c0 := hR.cidUniq c0' c0 σ' σ hσ' hσ (hcid'.trans hcid.symm)
+    subst this
+    refine ⟨(Mqtt.Proofs.BrokerRefine.specPrior
+      (Mqtt.Spec.Broker.takeOver (specRun {} es).1 (.connect req) a).1 c req).isSome, ?_, ?_⟩
+    · rw [c1, t1]; rfl
+    · rw [Mqtt.Proofs.BrokerRefine.spec_step_eq, c2, t2]; rfl
 
 end Mqtt.Properties.C09
